@@ -844,6 +844,12 @@ unsafe impl Allocator for PageAlignedAllocator {
             .map_err(|err| eprintln!("mprotect error = {:?}", err))
             .ok();
 
+        // Wipe the whole data region (including any spare capacity) before it
+        // goes back to the system allocator. Containers only zeroize the bytes
+        // they currently hold, and growing or shrinking a vector releases the
+        // old block without passing through their Zeroize implementations.
+        std::slice::from_raw_parts_mut(ptr.add(pagesize), layout.size()).zeroize();
+
         #[cfg(feature = "verif_hooks")]
         if verif::enabled() {
             let data = ptr.add(pagesize);
